@@ -63,5 +63,13 @@ def run(out, tier, seed):
         kinds = rng.sample(KINDS, 16 if quick else 30)
         jobs.append({"cfg": dict(S=U3[0], P=U3[1], O=U3[2], names=names4, facade="dataset", default_union=bool(i % 2), obs="marked", obs_kind="light",
                                  vocab=["plain", "bnodey", "typed", "hostile"][i % 4]), "events": with_reads(decorate(evs, i), kinds, names4, i)})
+    # rdf:List structures whose cells are also typed rdf:List (a serialiser must not tidy the graph it writes)
+    lq = [["s0", "p0", "s1"], ["s1", "p3", "o3"], ["s1", "p1", "o1"], ["s1", "p2", "s2"], ["s2", "p3", "o3"], ["s2", "p1", "o4"], ["s2", "p2", "o2"]]
+    for i, gs in enumerate((["D"], ["g1"], ["D", "g1"], ["b1"])):
+        for du in (False, True):
+            kinds = [k for k in KINDS if k[0].startswith(("ser_", "query_"))]
+            evs = [{"op": "init", "made": [g for g in gs if g != "D"], "quads": [t + [g] for g in gs for t in (lq if g != "b1" else lq[:4] + lq[6:])]}]
+            jobs.append({"cfg": dict(S=["s0", "s1", "s2"], P=["p0", "p1", "p2", "p3"], O=["o1", "o2", "o3", "o4", "s1", "s2"], names=names4, facade="dataset", default_union=du, obs="marked", obs_kind="light",
+                                     vocab="listy"), "events": with_reads(evs, kinds, names4, i)})
     out.exhaustive = False
     out.conform(__name__, TRACE, jobs, nontrivial=nontrivial, chunk=400)
